@@ -54,6 +54,17 @@ pub fn mk_tracking(ref_id: u32, leap: u16, ref_s: i64, ref_n: u32, corr: u32, de
     }
 }
 
+/// Tracking whose reference time lies `secs.nanos` in the past (kind 0) or future (kind 1) of the
+/// virtual realtime clock NOW.
+#[allow(clippy::too_many_arguments)]
+pub fn mk_tracking_aged(ref_id: u32, leap: u16, kind: i64, secs: i64, nanos: i64, corr: u32, delay: u32, disp: u32, interval: u32) -> Tracking {
+    let d = secs as i128 * 1_000_000_000 + nanos as i128;
+    let now = NOW_S as i128 * 1_000_000_000 + NOW_N as i128;
+    let r = if kind == 0 { now - d } else { now + d };
+    let (rs, rn) = (r.div_euclid(1_000_000_000) as i64, r.rem_euclid(1_000_000_000) as u32);
+    mk_tracking(ref_id, leap, rs, rn, corr, delay, disp, interval)
+}
+
 pub fn run_bnd(toks: &[&str]) -> String {
     let delay: u32 = p(toks[0]);
     let disp: u32 = p(toks[1]);
